@@ -138,6 +138,7 @@ func wireMatchesModel(c *vm.Ctx, b []byte, ch *level.Chunk, d *chunkDesc) bool {
 		return bad("data-length", fmt.Sprintf("data array length %d at offset %d does not fit %d bytes", dl, n, len(b)))
 	}
 	data := b[n+k : n+k+int(dl)]
+	lastWireDataLen = len(data)
 	rest := b[n+k+int(dl):]
 	p := 0
 	for si := range m.blocks {
